@@ -278,6 +278,7 @@ def build(rng, kind, force=None):
         st = lambda x, z, u: (f"(C11_Nlpadmm.mk_st {vlit(x)} {vlit(z)} {vlit(z)} {vlit(u)} {vlit(u)} (mkF {fs}) (mkF {gs}) "
                               f"(fun2_quad_off {mlit(M)} {vlit(d)} {vlit(e)} {vlit(h0)}) {qc(rho)} {qc(mu)} {qc(nu)} true)")
         p.term = lambda i, post: f"NLF.check {i} {st(xs, zst, us)} {st(post['x'], post['z'], post['u'])}"
+        p.ref = {"z": zst, "u": us}
         p.state = lambda o: {"x": flat(o.x), "z": flat(o.z), "u": flat(o.u)}
         p.convex = lin
         return p
@@ -317,6 +318,7 @@ def build(rng, kind, force=None):
         p.set_opt = set_opt
         st = lambda x, z, u: f"(C11_Ladmm.mk_st {vlit(x)} {vlit(z)} {vlit(z)} {vlit(u)} (mkF {fs}) (mkF {gs}) {cs} {qc(mu)} {qc(nu)})"
         p.term = lambda i, post: f"LAF.check {i} {st(xs, zst, us)} {st(post['x'], post['z'], post['u'])}"
+        p.ref = {"z": zst, "u": us}
         p.state = lambda o: {"x": flat(o.x), "z": flat(o.z), "u": flat(o.u)}
         return p
 
@@ -352,6 +354,7 @@ def build(rng, kind, force=None):
         st = lambda x, z, u: (f"(C11_Padmm.mk_st {vlit(x)} {vlit(z)} {vlit(z)} {vlit(u)} {vlit(u)} (mkF {fs}) (mkF {gs}) {cs} "
                               f"(op_mat {mlit(Brows)}) {vlit(cvec)} {qc(rho)} {qc(mu)} {qc(nu)} true)")
         p.term = lambda i, post: f"PAF.check {i} {st(xs, zst, us)} {st(post['x'], post['z'], post['u'])}"
+        p.ref = {"z": zst, "u": us}
         p.state = lambda o: {"x": flat(o.x), "z": flat(o.z), "u": flat(o.u)}
         return p
 
@@ -372,6 +375,7 @@ def build(rng, kind, force=None):
         st = lambda x, z: (f"(C11_Pdhg.mk_st {vlit(x)} {vlit(x)} {vlit(z)} {vlit(z)} (mkF {fs}) (mkF {gs}) {cs} "
                            f"{qc(tau)} {qc(sigma)} {qc(alpha)})")
         p.term = lambda i, post: f"PDF.check {i} {st(xs, s)} {st(post['x'], post['z'])}"
+        p.ref = {"z": s}
         p.state = lambda o: {"x": flat(o.x), "z": flat(o.z)}
         return p
     raise ValueError(kind)
@@ -440,6 +444,51 @@ def converges(p, rng, niter, frac=0.25):
                             "solve_returns_minimizer": flat(x) == flat(xm)}
 
 
+CTOR_COMPLETE = ("PADMM", "NLPADMM", "PDHG")
+
+
+def py_moved(p, post, tol=2.0 ** -30):
+    """components of the state after one step that differ from the manufactured optimum (compared in Python; used only
+    to SEARCH for a failing input when the Coq model no longer builds, and to replay such a record)"""
+    ref = {"x": p.xs} | getattr(p, "ref", {})
+    bad = []
+    for k_, v_ in ref.items():
+        if k_ in post and len(post[k_]) == len(v_) and max(abs(float(a) - float(b)) for a, b in zip(post[k_], v_)) > tol:
+            bad.append(k_)
+    return bad
+
+
+def fallback_search(ctx: Ctx):
+    """The proved model is unavailable (a generated definition or a theorem broke): look for a concrete failing input of
+    the fixed-point clause on the implementation alone, against the exact optimum computed in Python Fractions."""
+    per = ctx.n(9, 40)
+    info = {"seed": ctx.seed, "tier": ctx.tier, "oracle": "python"}
+    for kind in CLASSES:
+        for i in range(per):
+            sub = ctx.rng.randrange(1 << 30)
+            force = {"solver": ["linear", "matrix", "generic"][i % 3]} if kind == "ADMM" else {}
+            try:
+                p = build(random.Random(sub), kind, force)
+                p.rec.update(case_seed=sub, force=force)
+                o = p.make(p.xs)
+                ctor_only = kind in CTOR_COMPLETE and i % 2 == 1
+                p.rec["start"] = "constructor" if ctor_only else "attributes"
+                if not ctor_only:
+                    p.set_opt(o)
+                o.step()
+                post = p.state(o)
+            except Exception as ex:      # noqa: BLE001 -- the search must not mask the broken obligation
+                ctx.notes.append(f"fallback search: {kind} case {sub} raised {type(ex).__name__}: {ex}")
+                continue
+            ctx.count(f"fallback-fixed-point-{kind}-{p.rec['start']}", p.rec)
+            bad = py_moved(p, post)
+            if bad:
+                ctx.violation(f"{NAMES[kind]}.step", "one step() from a primal-dual optimal point moves away from it",
+                              p.rec | info | {"components": bad}, expected={"x": [float(t) for t in p.xs]}, observed=post,
+                              oracle="exact KKT point (Python Fractions); the Coq cross-check is unavailable because the model no longer builds")
+                break
+
+
 def run(ctx: Ctx):
     run_py2coq(ctx)
     ctx.trusted += ["C11 (generated steps = documented steps) and its trusted base",
@@ -457,6 +506,7 @@ def run(ctx: Ctx):
         coq_make(["theories/C03/CheckFix.vo"])
     except Broken as b:
         ctx.obligation(False, "executable model C03/CheckFix.v builds against the regenerated definitions", b.detail)
+        fallback_search(ctx)
         return
     per = ctx.n(9, 100)
     info = {"seed": ctx.seed, "tier": ctx.tier}
@@ -468,11 +518,16 @@ def run(ctx: Ctx):
             p = build(random.Random(sub), kind, force)
             p.rec.update(case_seed=sub, force=force)
             o = p.make(p.xs)
-            p.set_opt(o)
+            # PADMM / NLPADMM / PDHG take the whole primal-dual point through the documented x0 / z0 / u0 arguments:
+            # every other case starts from the constructor alone (no attribute is overwritten afterwards)
+            ctor_only = kind in CTOR_COMPLETE and i % 2 == 1
+            p.rec["start"] = "constructor" if ctor_only else "attributes"
+            if not ctor_only:
+                p.set_opt(o)
             o.step()
             post = p.state(o)
             cases.append((p, post))
-            ctx.count(f"fixed-point-{kind}-{p.rec['space']}", p.rec)
+            ctx.count(f"fixed-point-{kind}-{p.rec['space']}-{p.rec['start']}", p.rec)
         bodies, shard = [], 40
         for s in range(0, len(cases), shard):
             defs = [f"Definition c{j} := {p.term(j, post)}." for j, (p, post) in enumerate(cases[s:s + shard])]
@@ -530,8 +585,11 @@ def replay(ctx: Ctx, rec):
             return monotone_pgm(p, random.Random(inp["case_seed"] + 1), inp["iteration"] + 1) is None
         return lyapunov_admm(p, random.Random(inp["case_seed"] + 2), inp["iteration"] + 1) is None
     o = p.make(p.xs)
-    p.set_opt(o)
+    if inp.get("start") != "constructor":
+        p.set_opt(o)
     o.step()
+    if inp.get("oracle") == "python":
+        return not py_moved(p, p.state(o))
     coq_make(["theories/C03/CheckFix.vo"])
     out = coq_eval_shards("C03_replay", HEADER, [f"Definition c0 := {p.term(0, p.state(o))}.\nEval vm_compute in (c0 ++ [] : list nat)."])
     return not [c for c in parse_eval_nat_list(out[0]) if c % 100 >= 10]
